@@ -12,6 +12,7 @@ CONSTANTS
   L2PerPrune = 1
   AssumeFinality = TRUE
   AssumeSlowL1 = FALSE
+  FixHashChecks = FALSE
 SPECIFICATION Spec
 INVARIANTS P1_KeepMax P1_DurableFloor P1_MemFloor P2_HeadRetained
 CHECK_DEADLOCK FALSE
